@@ -23,6 +23,10 @@ CHECKS = {
          "explicit-state search to a fix-point over the real cursor objects in lock-step with a reference cursor",
          "All reachable (start,pos) states of parse.Input and buffer.Lexer are enumerated (BFS to a fix-point, successor = fresh object + shortest history + one operation) for every byte string up to the bound over an alphabet holding every truncated UTF-8 shape, for 11 constructors incl. failing readers; every observer and mutator result is compared with a reference cursor, the caller's array is compared before/after Restore. Exhaustive within the bound; nothing is sampled.",
          "Bound: inputs of <=4 (quick) / <=5 (thorough) atoms; contract-respecting operations only; reflection reads private start/pos/buf/err to justify state merging."),
+ "C19": ("model_checking",
+         "exhaustive enumeration of write histories x byte order x backend/environment behaviour x truncation, and of all (position, offset, whence) / (position, length) pairs, against encoding/binary, bytes.Reader and the io contracts",
+         "Every history of <=3 typed writes over 27 op/value pairs (both byte orders) is compared with encoding/binary and read back on 15 backends or environment behaviours (memory, Bytes() reader, ReadSeeker incl. 1-byte chunks and EOF-with-data, ReaderAt with nil/EOF on exact fit, plain readers, *os.File, mmap) with the data truncated at every byte: values, Pos, Len, Err before/after the first over-run, stability of returned byte strings. Seek from every position x every offset x whence 0..3 and Read/ReadAt for every (pos,len) on L<=6 bytes are compared with bytes.Reader and the io.Reader/io.ReaderAt clauses; all bit strings <=17 bits and all buffers <=2 bytes go through the bitmap types.",
+         "Bounds: histories <=3 writes (4 over a 12-op core in thorough), file-backed backends <=2 writes, L<=6; legal reader behaviours (EOF with data, EOF on exact fit) are environment choices; targets of Seek outside [0,Len] may be rejected or accepted."),
 }
 
 NOT_YET = "check not yet implemented at this commit (planned in DESIGN.md section 3); not claimed"
